@@ -42,7 +42,9 @@ from harness.lib import coqbuild, docdamage, gcsim
 from harness.props import c05 as h5
 
 LEVEL = "proof"
-THEOREMS = ["C07_fail_closed", "C07_damage", "C07_transient", "C07_partial_decode", "C07_pointer_consistent", "C07_pointer_raise_aborts", "C07_marker_keep"]
+THEOREMS = ["C07_fail_closed", "C07_damage", "C07_transient", "C07_partial_decode", "C07_pointer_consistent", "C07_pointer_raise_aborts", "C07_marker_keep",
+            "C07_metadata_document_fail_closed", "C07_lost_section_refused", "C07_readable_records_complete", "C07_structured_damage_aborts",
+            "C07_list_record_without_path_refused"]
 REQ = gcsim.REQ
 TIMEOUT_MS = h5.TIMEOUT_MS
 
@@ -509,7 +511,11 @@ def run_table(spec: Dict[str, Any]) -> Dict[str, Any]:
             lab, pl = docdamage.op_label(op), docdamage.path_label(op["path"])
             what = f"doc:{lab}:{role}:{pl}"
             r = one(None, (key, dict(op, doc=fmt)), "doc", what, desc)
-            r["store"], r["no_model"], r["doc"] = None, True, {"fmt": fmt, "role": role, "op": op}
+            r["store"], r["no_model"], r["doc"] = None, True, {"fmt": fmt, "role": role, "op": op, "key": key}
+            try:
+                r["doc"]["model"] = doc_model_inputs(fmt, role, doc_damaged_bytes(open(os.path.join(root, key), "rb").read(), dict(op, doc=fmt)))
+            except Exception as e:  # noqa: BLE001 - reported by the correspondence as a case without a model
+                r["doc"]["model_error"] = f"{type(e).__name__}: {e}"[:200]
             out["stats"]["doc_damage_runs"] = out["stats"].get("doc_damage_runs", 0) + 1
             gone = sorted((set(r["before"]) - set(r["after"])) & (reach | live))
             if op["op"] in ("empty", "zero-records"):
@@ -557,7 +563,11 @@ def run_table(spec: Dict[str, Any]) -> Dict[str, Any]:
         for r in out["runs"]:
             out["stats"]["raised" if r["real"]["raised"] else "absorbed"] += 1
             out["violations"].extend(r["violations"])
-        out["model"] = {"snaps": snaps, "store": base_store, "now_ms": int(now * 1000), "grace": grace, "tp": root}
+        entries = []
+        for key, mt in sorted(gcsim.list_tree(root).items()):
+            with open(os.path.join(root, key), "rb") as f:
+                entries.append([key, int(round(mt * 1000)), gcsim.content_term(gcsim.classify(key, f.read()))])
+        out["model"] = {"snaps": snaps, "store": base_store, "now_ms": int(now * 1000), "grace": grace, "tp": root, "entries": entries}
         out["shape"] = {"lists": [len(gcsim.avro_probe(open(os.path.join(root, k), "rb"))["paths"]) for k in list_keys],
                         "manifests": [len(gcsim.avro_probe(open(os.path.join(root, k), "rb"))["paths"]) for k in man_keys]}
     except (gcsim.CaseTimeout, MemoryError) as e:
@@ -575,6 +585,61 @@ def damaged_bytes(bs: bytes, dmg: Tuple[Any, ...]) -> bytes:
     if dmg[0] == "cut":
         return bs[:dmg[1]]
     raise ValueError(dmg)
+
+
+def schema_ext(doc: Any) -> bool:
+    """The external validation of Model/Doc.v `SExt "Schema.fields"`, measured: does Schema(...) accept every item of the
+    document's schemas section (vacuously true when the section cannot be walked: the reader refuses the document anyway)."""
+    from datashard import Schema
+    try:
+        items = [it for it in doc["schemas"] if isinstance(it, dict) and "schema_id" in it and "fields" in it]
+    except Exception:  # noqa: BLE001
+        return True
+    for it in items:
+        try:
+            Schema(schema_id=it["schema_id"], fields=it["fields"], schema_string=it.get("schema_string", ""))
+        except Exception:  # noqa: BLE001
+            return False
+    return True
+
+
+def intkey_ext(recs: List[Any]) -> bool:
+    """SExt "intkey_map": an optional statistics map is falsy, or a dict whose keys int() accepts."""
+    for r in recs:
+        d = r.get("data_file") if isinstance(r, dict) else None
+        if not isinstance(d, dict):
+            continue
+        for k in ("lower_bounds", "upper_bounds", "column_sizes", "value_counts", "null_value_counts"):
+            v = d.get(k)
+            if not v:
+                continue
+            if not isinstance(v, dict):
+                return False
+            for kk in v:
+                try:
+                    int(kk)
+                except Exception:  # noqa: BLE001
+                    return False
+    return True
+
+
+def doc_model_inputs(fmt: str, role: str, new: bytes) -> Dict[str, Any]:
+    """The damaged document as input of Model/GCDoc.v: the decoded document (json / fastavro, independent of datashard) as a
+    `jv` term, the external validations measured, and -- for the metadata file -- what the library's own decoder makes of it."""
+    import json
+    if role == "current-metadata":
+        doc = json.loads(new.decode("utf-8"))
+        from datashard.metadata_manager import MetadataManager
+        try:
+            md = MetadataManager._dict_to_metadata(MetadataManager.__new__(MetadataManager), doc)
+            real = [1, [sn.manifest_list for sn in md.snapshots]]
+        except Exception as e:  # noqa: BLE001
+            real = [0, [], type(e).__name__]
+        return {"kind": "metadata", "term": docdamage.jv(doc), "ext": schema_ext(doc), "real_decode": real}
+    if fmt == "json":
+        return {"kind": role + "-json", "term": docdamage.jv(json.loads(new.decode("utf-8"))), "ext": True}
+    _schema, recs = docdamage.avro_load(new)
+    return {"kind": role + "-avro", "term": "[" + "; ".join(docdamage.jv(r) for r in recs) + "]", "ext": intkey_ext(recs)}
 
 
 def doc_damaged_bytes(bs: bytes, dmg: Dict[str, Any]) -> bytes:
@@ -731,7 +796,10 @@ def make_specs(ctx) -> List[Dict[str, Any]]:
 EVAL_STATS = {"requested": 0, "distinct": 0}
 
 
-def eval_dedup(exprs: List[str], pre: str) -> List[Any]:
+DREQ = REQ + ["DS.Model.Doc", "DS.Gen.GenMeta", "DS.Model.GCDoc"]
+
+
+def eval_dedup(exprs: List[str], pre: str, req: Optional[List[str]] = None) -> List[Any]:
     """coq_eval, evaluating each distinct expression once (many damaged files fall into the same content class)."""
     uniq: Dict[str, int] = {}
     for e in exprs:
@@ -739,8 +807,92 @@ def eval_dedup(exprs: List[str], pre: str) -> List[Any]:
     order = sorted(uniq, key=uniq.get)
     EVAL_STATS["requested"] += len(exprs)
     EVAL_STATS["distinct"] += len(order)
-    vals = coqbuild.coq_eval(REQ, order, preamble=pre, chunk=gcsim.chunk_for(len(order)), timeout=2400) if order else []
+    vals = coqbuild.coq_eval(req or REQ, order, preamble=pre, chunk=gcsim.chunk_for(len(order)), timeout=2400) if order else []
     return [vals[uniq[e]] for e in exprs]
+
+
+DOC_CONTENT = {"list-avro": "list_records_content", "manifest-avro": "manifest_records_content",
+               "list-json": "list_json_content", "manifest-json": "manifest_json_content"}
+
+
+def doc_correspondence(ctx, recs: List[Tuple[Dict[str, Any], Dict[str, Any]]], pre: str) -> None:
+    """Structured damage through Model/GCDoc.v.  Stage A evaluates what the regenerated reader shapes make of each damaged
+    document (metadata: refused, or the manifest lists of its snapshots; list / manifest: its content class); `doc_decode`
+    compares that with the library's own decoder on the metadata documents.  Stage B runs the collector model on it
+    (collect_doc / gc_run on the store with the damaged file's content class replaced); `doc_runs` compares with the real
+    collection: refused / aborted = the real one raised having deleted nothing (same phase when it raised
+    GarbageCollectionAborted); completed = abort phase, deleted set, keep sets, call trace as for every other run."""
+    from harness.lib.coqio import to_coq
+    docruns = [(ri, run) for ri, (_spec, res) in enumerate(recs) for run in res["runs"] if run.get("doc")]
+    bad_runs: List[Dict[str, Any]] = []
+    stage_a, idx_a = [], []
+    for ri, run in docruns:
+        m = run["doc"].get("model")
+        if m is None:
+            bad_runs.append({"damage": run["what"], "diffs": ["no model input: " + str(run["doc"].get("model_error"))]})
+            continue
+        ext = f"(fun _ _ => {'true' if m['ext'] else 'false'})"
+        if m["kind"] == "metadata":
+            stage_a.append(f"render_decode {ext} {m['term']}")
+        else:
+            stage_a.append(f"content_code ({DOC_CONTENT[m['kind']]} {ext} {m['term']})")
+        idx_a.append((ri, run))
+    try:
+        vals_a = eval_dedup(stage_a, "", DREQ)
+    except RuntimeError as e:
+        ctx.proof_problems.append("model evaluation failed (documents): " + str(e)[:600])
+        return
+    bad_decode: List[Dict[str, Any]] = []
+    n_decode = 0
+    stage_b, idx_b = [], []
+    for (ri, run), va in zip(idx_a, vals_a):
+        spec, res = recs[ri]
+        m, mm = run["doc"]["model"], res["model"]
+        code, strs = int(va[0]), list(va[1])
+        pspec = {k: spec[k] for k in spec if k != "base"}
+        if m["kind"] == "metadata":
+            n_decode += 1
+            real = m["real_decode"]
+            if [code, strs] != [real[0], list(real[1])]:
+                bad_decode.append({"spec": pspec, "damage": run["what"], "op": run["doc"]["op"], "library": real, "model": [code, strs]})
+            if code == 0:
+                run["doc"]["expect"] = "refused"
+                idx_b.append((ri, run, None))
+                continue
+            expr = gcsim.gc_expr(mm["tp"], mm["grace"], mm["now_ms"], TIMEOUT_MS, [], strs, f"base{ri}")
+        else:
+            avro = m["kind"].endswith("avro")
+            cterm = {0: "(CPartialAvro [] false)" if avro else "CGarbage", 1: f"(CList FAvro {to_coq(strs)})", 2: f"(CList FJson {to_coq(strs)})",
+                     3: f"(CManifest FAvro {to_coq(strs)})", 4: f"(CManifest FJson {to_coq(strs)})", 5: "CJsonEmpty"}[code]
+            store = "[" + "; ".join(f"({to_coq(k)}, mkObj ({mt})%Z {cterm if k == run['doc']['key'] else ct})" for k, mt, ct in mm["entries"]) + "]"
+            expr = gcsim.gc_expr(mm["tp"], mm["grace"], mm["now_ms"], TIMEOUT_MS, [], mm["snaps"], store)
+        stage_b.append(expr)
+        idx_b.append((ri, run, len(stage_b) - 1))
+    ctx.correspondence("doc_decode", n_decode, bad_decode)
+    try:
+        vals_b = eval_dedup(stage_b, pre, DREQ)
+    except RuntimeError as e:
+        ctx.proof_problems.append("model evaluation failed (documents): " + str(e)[:600])
+        return
+    for ri, run, bi in idx_b:
+        spec = recs[ri][0]
+        real = run["real"]
+        gone = {k for k in set(run["before"]) - set(run["after"]) if not k.startswith(gcsim.INFLIGHT + "/")}
+        if bi is None:
+            d = [] if real["raised"] and not gone else [f"model: the reader refuses the document (raise, nothing deleted); code: raised={real['raised']} deleted={sorted(gone)[:4]}"]
+        else:
+            model = gcsim.parse_render(vals_b[bi])
+            if model["out"] in (1, 2):
+                d = []
+                if not real["raised"] or gone:
+                    d.append(f"model: aborted in phase {model['out']} with nothing deleted; code: raised={real['raised']} ({real.get('exc_type')}) deleted={sorted(gone)[:4]}")
+                elif real.get("aborted_type_ok") and real["phase"] != model["out"]:
+                    d.append(f"abort phase: code={real['phase']} model={model['out']}")
+            else:
+                d = gcsim.compare(real, run["before"], run["after"], model)
+        if d:
+            bad_runs.append({"spec": {k: spec[k] for k in spec if k != "base"}, "damage": run["what"], "op": run["doc"]["op"], "diffs": d[:4]})
+    ctx.correspondence("doc_runs", len(docruns), bad_runs)
 
 
 def run_campaign(ctx) -> None:
@@ -915,6 +1067,8 @@ def run_campaign(ctx) -> None:
         if d:
             bad.append({"spec": {k: recs[ri][0][k] for k in recs[ri][0] if k != "base"}, "damage": run["what"], "file": run["damage"][0], "diffs": d[:4]})
     ctx.correspondence("gc_damage", len(druns), bad)
+    doc_correspondence(ctx, recs, pre)
+    ctx.stats["model_evaluations_distinct"] = dict(EVAL_STATS)
     if done:
         ri, run, model = done[len(done) // 2]
         ctx.sample({"fault_case": {"fault": run["what"], "plan": run["plan"], "raised": run["real"]["raised"], "exception": run["real"]["exc_type"],
@@ -939,7 +1093,7 @@ def run(ctx) -> None:
         "an abort raised by a sweep's own listing (failure or '../' entry) may follow deletions of true orphans: the property's second disjunct",
         "damage that still parses as an empty JSON manifest is not judged (DESIGN.md section 7 interpretation, as for C14)",
     ]
-    ctx.proofs(THEOREMS, gen_files=["GenNorm.v"])
+    ctx.proofs(THEOREMS, gen_files=["GenNorm.v", "GenMeta.v"])
     ctx.allow_axioms([])
     run_campaign(ctx)
 
